@@ -165,6 +165,7 @@ type Machine struct {
 	hpkg     *ssa.Package
 	skipGo   []string
 	preemptLock bool
+	preemptSelect bool // non-blocking selects in preempt_at functions are preemption points
 	preemptBound int
 	preemptAt   []string
 	timersOff   bool
